@@ -35,6 +35,37 @@ def Values (h : Hdr) (k : Bytes) : List Bytes := values h (Go.canon k)
 def Add (h : Hdr) (k v : Bytes) : Hdr := add h (Go.canon k) v
 def Set (h : Hdr) (k v : Bytes) : Hdr := set h (Go.canon k) v
 def Del (h : Hdr) (k : Bytes) : Hdr := del h (Go.canon k)
+
+/-- canonical key of the `Connection` header -/
+def connKey : Bytes := [67,111,110,110,101,99,116,105,111,110]
+
+/-- the comma-separated options of every `Connection` value, trimmed (how both `keepEndToEnd`
+    and `httputil.ReverseProxy`'s `removeHopByHopHeaders` read them; header values cannot hold
+    other white space than SP/HT after parsing, so `TrimSpace` and `textproto.TrimString` agree) -/
+def connOptions (h : Hdr) : List Bytes :=
+  (values h connKey).flatMap fun v => (Go.split v [44]).map Go.trimSpace
+
+/-- the header keys `removeHopByHopHeaders` deletes because a `Connection` option names them (`h.Del(option)`) -/
+def connDrops (h : Hdr) : List Bytes := (connOptions h).map Go.canon
+
+/-- `strings.Join` -/
+def joinBytes (sep : Bytes) : List Bytes → Bytes
+  | [] => []
+  | [x] => x
+  | x :: y :: t => x ++ sep ++ joinBytes sep (y :: t)
+
+/-- `strings.EqualFold` on ASCII names -/
+def equalFold (a b : Bytes) : Bool := Go.toLower a == Go.toLower b
+
+/-- `keepEndToEnd(header, name)` of agent/agent.go (hand model; tie: suite `identity`, which runs the
+    regenerated `agent_forwardRequestHeader` — and with it this function — against the real one):
+    the options equal to `name` (ASCII case-insensitively, after trimming) are removed from every
+    `Connection` value; values left without options are removed; no value left ⇒ the header is deleted. -/
+def dropConnOption (h : Hdr) (name : Bytes) : Hdr :=
+  let kept := (values h connKey).filterMap fun v =>
+    let opts := (Go.split v [44]).filter fun o => !(equalFold (Go.trimSpace o) name)
+    if opts.isEmpty then none else some (joinBytes [44] opts)
+  if kept.isEmpty then del h connKey else put h connKey kept
 end Hdr
 
 /-- `types.Backend` (app/types/types.go). -/
